@@ -74,28 +74,51 @@ theorem match_pure (v : V) : Pure2 Match.lenM Match.marshalM v :=
 
 /-! ### (a) actions that store nothing -/
 
+/-- ActionHeader: neither Len() nor MarshalBinary() modifies the value -/
 theorem actionHeader_pure (v : V) : Pure2 ActionHeader.lenM ActionHeader.marshalM v := ⟨ActionHeader.lenM_pure v, ActionHeader.marshalM_pure v⟩
+/-- ActionOutput: neither Len() nor MarshalBinary() modifies the value -/
 theorem actionOutput_pure (v : V) : Pure2 ActionOutput.lenM ActionOutput.marshalM v := ⟨ActionOutput.lenM_pure v, ActionOutput.marshalM_pure v⟩
+/-- ActionSetqueue: neither Len() nor MarshalBinary() modifies the value -/
 theorem actionSetqueue_pure (v : V) : Pure2 ActionSetqueue.lenM ActionSetqueue.marshalM v := ⟨ActionSetqueue.lenM_pure v, ActionSetqueue.marshalM_pure v⟩
+/-- ActionGroup: neither Len() nor MarshalBinary() modifies the value -/
 theorem actionGroup_pure (v : V) : Pure2 ActionGroup.lenM ActionGroup.marshalM v := ⟨ActionGroup.lenM_pure v, ActionGroup.marshalM_pure v⟩
+/-- ActionMplsTtl: neither Len() nor MarshalBinary() modifies the value -/
 theorem actionMplsTtl_pure (v : V) : Pure2 ActionMplsTtl.lenM ActionMplsTtl.marshalM v := ⟨ActionMplsTtl.lenM_pure v, ActionMplsTtl.marshalM_pure v⟩
+/-- ActionNwTtl: neither Len() nor MarshalBinary() modifies the value -/
 theorem actionNwTtl_pure (v : V) : Pure2 ActionNwTtl.lenM ActionNwTtl.marshalM v := ⟨ActionNwTtl.lenM_pure v, ActionNwTtl.marshalM_pure v⟩
+/-- ActionDecNwTtl: neither Len() nor MarshalBinary() modifies the value -/
 theorem actionDecNwTtl_pure (v : V) : Pure2 ActionDecNwTtl.lenM ActionDecNwTtl.marshalM v := ⟨ActionDecNwTtl.lenM_pure v, ActionDecNwTtl.marshalM_pure v⟩
+/-- ActionPush: neither Len() nor MarshalBinary() modifies the value -/
 theorem actionPush_pure (v : V) : Pure2 ActionPush.lenM ActionPush.marshalM v := ⟨ActionPush.lenM_pure v, ActionPush.marshalM_pure v⟩
+/-- ActionPopVlan: neither Len() nor MarshalBinary() modifies the value -/
 theorem actionPopVlan_pure (v : V) : Pure2 ActionPopVlan.lenM ActionPopVlan.marshalM v := ⟨ActionPopVlan.lenM_pure v, ActionPopVlan.marshalM_pure v⟩
+/-- ActionPopMpls: neither Len() nor MarshalBinary() modifies the value -/
 theorem actionPopMpls_pure (v : V) : Pure2 ActionPopMpls.lenM ActionPopMpls.marshalM v := ⟨ActionPopMpls.lenM_pure v, ActionPopMpls.marshalM_pure v⟩
+/-- ActionSetField (whatever field it holds): neither Len() nor MarshalBinary() modifies the value -/
 theorem actionSetField_pure (v : V) : Pure2 ActionSetField.lenM ActionSetField.marshalM v := ⟨ActionSetField.lenM_pure v, ActionSetField.marshalM_pure v⟩
+/-- NXActionHeader: neither Len() nor MarshalBinary() modifies the value -/
 theorem nxHeader_pure (v : V) : Pure2 NXActionHeader.lenM NXActionHeader.marshalM v := ⟨NXActionHeader.lenM_pure v, NXActionHeader.marshalM_pure v⟩
+/-- NXActionConjunction: neither Len() nor MarshalBinary() modifies the value -/
 theorem nxConjunction_pure (v : V) : Pure2 NXActionConjunction.lenM NXActionConjunction.marshalM v := ⟨NXActionConjunction.lenM_pure v, NXActionConjunction.marshalM_pure v⟩
+/-- NXActionRegLoad: neither Len() nor MarshalBinary() modifies the value -/
 theorem nxRegLoad_pure (v : V) : Pure2 NXActionRegLoad.lenM NXActionRegLoad.marshalM v := ⟨NXActionRegLoad.lenM_pure v, NXActionRegLoad.marshalM_pure v⟩
+/-- NXActionRegMove: neither Len() nor MarshalBinary() modifies the value -/
 theorem nxRegMove_pure (v : V) : Pure2 NXActionRegMove.lenM NXActionRegMove.marshalM v := ⟨NXActionRegMove.lenM_pure v, NXActionRegMove.marshalM_pure v⟩
+/-- NXActionResubmitTable: neither Len() nor MarshalBinary() modifies the value -/
 theorem nxResubmitTable_pure (v : V) : Pure2 NXActionResubmitTable.lenM NXActionResubmitTable.marshalM v := ⟨NXActionResubmitTable.lenM_pure v, NXActionResubmitTable.marshalM_pure v⟩
+/-- NXActionOutputReg: neither Len() nor MarshalBinary() modifies the value -/
 theorem nxOutputReg_pure (v : V) : Pure2 NXActionOutputReg.lenM NXActionOutputReg.marshalM v := ⟨NXActionOutputReg.lenM_pure v, NXActionOutputReg.marshalM_pure v⟩
+/-- NXActionCTClear: neither Len() nor MarshalBinary() modifies the value -/
 theorem nxCTClear_pure (v : V) : Pure2 NXActionCTClear.lenM NXActionCTClear.marshalM v := ⟨NXActionCTClear.lenM_pure v, NXActionCTClear.marshalM_pure v⟩
+/-- NXActionDecTTL: neither Len() nor MarshalBinary() modifies the value -/
 theorem nxDecTTL_pure (v : V) : Pure2 NXActionDecTTL.lenM NXActionDecTTL.marshalM v := ⟨NXActionDecTTL.lenM_pure v, NXActionDecTTL.marshalM_pure v⟩
+/-- NXActionDecTTLCntIDs: neither Len() nor MarshalBinary() modifies the value -/
 theorem nxDecTTLCntIDs_pure (v : V) : Pure2 NXActionDecTTLCntIDs.lenM NXActionDecTTLCntIDs.marshalM v := ⟨NXActionDecTTLCntIDs.lenM_pure v, NXActionDecTTLCntIDs.marshalM_pure v⟩
+/-- NXLearnSpecHeader: neither Len() nor MarshalBinary() modifies the value -/
 theorem nxLearnSpecHeader_pure (v : V) : Pure2 NXLearnSpecHeader.lenM NXLearnSpecHeader.marshalM v := ⟨NXLearnSpecHeader.lenM_pure v, NXLearnSpecHeader.marshalM_pure v⟩
+/-- NXLearnSpecField: neither Len() nor MarshalBinary() modifies the value -/
 theorem nxLearnSpecField_pure (v : V) : Pure2 NXLearnSpecField.lenM NXLearnSpecField.marshalM v := ⟨NXLearnSpecField.lenM_pure v, NXLearnSpecField.marshalM_pure v⟩
+/-- NXLearnSpec: neither Len() nor MarshalBinary() modifies the value -/
 theorem nxLearnSpec_pure (v : V) : Pure2 NXLearnSpec.lenM NXLearnSpec.marshalM v := ⟨NXLearnSpec.lenM_pure v, NXLearnSpec.marshalM_pure v⟩
 
 /-! ### (b) actions that store something -/
@@ -131,6 +154,7 @@ theorem nxResubmit_repeatable (v : V) : Repeatable NXActionResubmit.lenM NXActio
     subst this
     exact h2
 
+/-- …and a witness that it is NOT pure: a hand-built NXActionResubmit whose TableID is 0 comes back with TableID = 255 -/
 theorem nxResubmit_not_pure : ∃ v bs v2, NXActionResubmit.marshalM v = .ok (bs, v2) ∧ v2 ≠ v :=
   ⟨.obj "NXActionResubmit" [NXActionHeader.newL Gen.openflow13.NXAST_RESUBMIT 16, .num 1, .num 0, .bytes (zeros 3)], _, _, rfl, by
     intro h
@@ -433,6 +457,7 @@ theorem nxConnTrack_repeatable (subLen : V → R (UInt16 × V)) (sub : V → R (
 
 /-! ### the Action interface -/
 
+/-- MarshalBinary() of a non-conntrack action never changes its dynamic type -/
 theorem marshalLeaf_kind (v : V) (bs : Bytes) (v2 : V) (h : Action.marshalLeaf v = .ok (bs, v2)) : v2.kind = v.kind := by
   unfold Action.marshalLeaf at h
   split at h <;> rename_i hk
@@ -562,9 +587,11 @@ theorem action_repeatable_leaf (v : V) : Repeatable Action.lenLeaf Action.marsha
       exact h2
 
 
+/-- unfolding the interface dispatch on a conntrack action -/
 theorem marshalD_succ_ct (d : Nat) (v : V) (hk : v.kind = "NXActionConnTrack") :
     Action.marshalD (d + 1) v = NXActionConnTrack.marshalWith (Action.lenD d) (Action.marshalD d) v := by
   unfold Action.marshalD; simp only [hk, if_true]
+/-- unfolding the interface dispatch on any other action -/
 theorem marshalD_succ_leaf (d : Nat) (v : V) (hk : v.kind ≠ "NXActionConnTrack") :
     Action.marshalD (d + 1) v = Action.marshalLeaf v := by
   rw [Action.marshalD]; simp only [hk, if_false]
@@ -646,14 +673,17 @@ theorem actions_loop (as : List V) (e : Bool) (bs : Bytes) (as2 : List V) (e' : 
 theorem actions_len_idem (as : List V) (ls : List UInt16) (as1 : List V) (h : mapM2 Action.lenM as = .ok (ls, as1)) :
     mapM2 Action.lenM as1 = .ok (ls, as1) :=
   mapM2_idem Action.lenM as ls as1 (fun x _ a x' hx => Action.lenM_idem x a x' hx) h
+/-- encoding a list of actions a second time gives the same encodings and changes nothing further -/
 theorem actions_mar_idem (as : List V) (bss : List Bytes) (as2 : List V) (h : mapM2 Action.marshalM as = .ok (bss, as2)) :
     mapM2 Action.marshalM as2 = .ok (bss, as2) :=
   mapM2_idem Action.marshalM as bss as2 (fun x _ b z hx => (action_repeatable x).marIdem b z hx) h
+/-- sizing a list of actions after encoding it gives the sizes it gave before -/
 theorem actions_len_after_mar (as : List V) (ls : List UInt16) (as1 : List V) (bss : List Bytes) (as2 : List V)
     (h1 : mapM2 Action.lenM as = .ok (ls, as1)) (h2 : mapM2 Action.marshalM as = .ok (bss, as2)) :
     mapM2 Action.lenM as2 = .ok (ls, as2) :=
   mapM2_len_after_mar Action.lenM Action.marshalM as ls as1 bss as2 h1 h2
     (fun x _ l y b z hx hy => (action_repeatable x).lenAfterMar l y b z hx hy)
+/-- encoding a list of actions after sizing it gives what encoding alone gives -/
 theorem actions_mar_after_len (as : List V) (ls : List UInt16) (as1 : List V) (bss : List Bytes) (as2 : List V)
     (h1 : mapM2 Action.lenM as = .ok (ls, as1)) (h2 : mapM2 Action.marshalM as = .ok (bss, as2)) :
     mapM2 Action.marshalM as1 = .ok (bss, as2) :=
@@ -662,12 +692,16 @@ theorem actions_mar_after_len (as : List V) (ls : List UInt16) (as1 : List V) (b
 
 /-! ### instructions -/
 
+/-- InstrHeader: neither Len() nor MarshalBinary() modifies the value -/
 theorem instrHeader_pure (v : V) : Pure2 InstrHeader.lenM InstrHeader.marshalM v :=
   ⟨fun _ _ h => (same_ok _ _ _ _ h).2, InstrHeader.marshalM_pure v⟩
+/-- InstrGotoTable: neither Len() nor MarshalBinary() modifies the value -/
 theorem instrGotoTable_pure (v : V) : Pure2 InstrGotoTable.lenM InstrGotoTable.marshalM v :=
   ⟨fun _ _ h => (same_ok _ _ _ _ h).2, InstrGotoTable.marshalM_pure v⟩
+/-- InstrWriteMetadata: neither Len() nor MarshalBinary() modifies the value -/
 theorem instrWriteMetadata_pure (v : V) : Pure2 InstrWriteMetadata.lenM InstrWriteMetadata.marshalM v :=
   ⟨fun _ _ h => (same_ok _ _ _ _ h).2, InstrWriteMetadata.marshalM_pure v⟩
+/-- InstrMeter: neither Len() nor MarshalBinary() modifies the value -/
 theorem instrMeter_pure (v : V) : Pure2 InstrMeter.lenM InstrMeter.marshalM v :=
   ⟨fun _ _ h => (same_ok _ _ _ _ h).2, InstrMeter.marshalM_pure v⟩
 
@@ -739,6 +773,7 @@ theorem instrActions_repeatable (v : V) : Repeatable InstrActions.lenM InstrActi
     have hl1 := actions_len_idem _ _ _ hl
     exact build t x pad as1 ls bss as2 hb hl1 hhb hm
 
+/-- InstrActions.MarshalBinary() returns an InstrActions -/
 theorem instrActions_marshal_kind (v : V) (bs : Bytes) (v2 : V) (h : InstrActions.marshalM v = .ok (bs, v2)) :
     v2.kind = "InstrActions" := by
   unfold InstrActions.marshalM at h
@@ -803,6 +838,7 @@ theorem instruction_repeatable (v : V) : Repeatable Instruction.lenM Instruction
 /-- the fixed 16 bytes of a bucket -/
 def bucketHdr (l : UInt16) (w wp wg : Nat) : Bytes := be16 l ++ be16 (n16 w) ++ be32 (n32 wp) ++ be32 (n32 wg) ++ zeros 4
 
+/-- a uint16 stored in a field and read back is unchanged -/
 theorem u16_roundtrip (l : UInt16) : n16 l.toNat = l := by
   apply UInt16.toNat_inj.mp
   simp only [n16, UInt16.toNat_ofNat']
@@ -876,14 +912,17 @@ theorem bucket_repeatable (v : V) : Repeatable Bucket.lenM Bucket.marshalM v := 
 
 /-! ### Hello -/
 
+/-- HelloElemHeader: neither Len() nor MarshalBinary() modifies the value -/
 theorem helloElemHeader_pure (v : V) : Pure2 HelloElemHeader.lenM HelloElemHeader.marshalM v :=
   ⟨fun _ _ h => (same_ok _ _ _ _ h).2, HelloElemHeader.marshalM_pure v⟩
+/-- HelloElemVersionBitmap: neither Len() nor MarshalBinary() modifies the value -/
 theorem helloElemVersionBitmap_pure (v : V) : Pure2 HelloElemVersionBitmap.lenM HelloElemVersionBitmap.marshalM v :=
   ⟨fun _ _ h => by
       unfold HelloElemVersionBitmap.lenM at h
       obtain ⟨_, _, h'⟩ := bind_ok_inv _ _ _ h
       exact (same_ok _ _ _ _ h').2,
    HelloElemVersionBitmap.marshalM_pure v⟩
+/-- the HelloElem interface: neither Len() nor MarshalBinary() modifies the value -/
 theorem helloElem_pure (v : V) : Pure2 HelloElem.lenM HelloElem.marshalM v := by
   constructor
   · intro l v1 h
@@ -948,17 +987,21 @@ theorem hello_repeatable : ∀ v, Repeatable Hello.lenM Hello.marshalM v := by
 
 /-! ### lists of instructions -/
 
+/-- one successful run of the `append` loop over instructions is `mapM2` + concatenation, error flag false -/
 theorem instrs_loop (is : List V) (e : Bool) (bs : Bytes) (is2 : List V) (e' : Bool)
     (h : marshalList Instruction.marshalM is e = .ok (bs, is2, e')) :
     ∃ bss, mapM2 Instruction.marshalM is = .ok (bss, is2) ∧ bs = bss.flatten ∧ e' = (if is = [] then e else false) := by
   obtain ⟨bss, hm, rfl⟩ := marshalList_eq_mapM2 _ _ _ _ _ _ (fun x _ => Instruction.marshalM_noErr x) h
   exact ⟨bss, hm, rfl, marshalList_flag _ _ _ _ _ _ (fun x _ => Instruction.marshalM_noErr x) h⟩
+/-- sizing a list of instructions twice gives the same sizes and changes nothing further -/
 theorem instrs_len_idem (is : List V) (ls : List UInt16) (is1 : List V) (h : mapM2 Instruction.lenM is = .ok (ls, is1)) :
     mapM2 Instruction.lenM is1 = .ok (ls, is1) :=
   mapM2_idem Instruction.lenM is ls is1 (fun x _ a x' hx => Instruction.lenM_idem x a x' hx) h
+/-- encoding a list of instructions twice gives the same encodings and changes nothing further -/
 theorem instrs_mar_idem (is : List V) (bss : List Bytes) (is2 : List V) (h : mapM2 Instruction.marshalM is = .ok (bss, is2)) :
     mapM2 Instruction.marshalM is2 = .ok (bss, is2) :=
   mapM2_idem Instruction.marshalM is bss is2 (fun x _ b z hx => (instruction_repeatable x).marIdem b z hx) h
+/-- sizing a list of instructions after encoding it gives the sizes it gave before -/
 theorem instrs_len_after_mar (is : List V) (ls : List UInt16) (is1 : List V) (bss : List Bytes) (is2 : List V)
     (h1 : mapM2 Instruction.lenM is = .ok (ls, is1)) (h2 : mapM2 Instruction.marshalM is = .ok (bss, is2)) :
     mapM2 Instruction.lenM is2 = .ok (ls, is2) :=
@@ -1018,6 +1061,7 @@ theorem flowMod_len_shape (v : V) (l : UInt16) (v1 : V) (hl : FlowMod.lenM v = .
       exact ⟨h, ck, cm, tid, cmd, it, ht, pr, bid, op, og, fl, pad, m, is, ml, m', is', rfl, rfl, hml, Or.inr ⟨hd, ls, hm, rfl⟩⟩
   · exact absurd hl (by simp)
 
+/-- FlowMod.Len() from its pieces (delete commands / other commands) -/
 theorem flowMod_len_build (h ck cm tid : V) (cmd : Nat) (it ht pr bid op og fl pad m : V) (is : List V) (ml : UInt16) (m1 : V)
     (hml : Match.lenM m = .ok (ml, m1)) :
     ((cmd = Gen.openflow13.FC_DELETE ∨ cmd = Gen.openflow13.FC_DELETE_STRICT) →
@@ -1122,6 +1166,7 @@ theorem bucket_len_ignores (x l0 w wp wg p as : V) (l : UInt16) (v1 : V)
     exact ⟨_, rfl, by simp only [hm, Res.bind_ok]⟩
   · exact absurd h (by simp)
 
+/-- Bucket.MarshalBinary() does not look at the stored Length field -/
 theorem bucket_mar_ignores (x l0 w wp wg p as : V) (bs : Bytes) (v2 : V)
     (h : Bucket.marshalM (.obj "Bucket" [l0, w, wp, wg, p, as]) = .ok (bs, v2)) :
     Bucket.marshalM (.obj "Bucket" [x, w, wp, wg, p, as]) = .ok (bs, v2) := by
@@ -1197,6 +1242,7 @@ theorem bucketCopy_repeatable (v : V) : Repeatable Bucket.lenM Bucket.marshalCop
     have := fold _ _ _ hm1
     simpa only [Bucket.length] using this
 
+/-- one successful run of GroupMod's `append` loop over buckets is `mapM2` + concatenation, error flag false -/
 theorem buckets_loop (bks : List V) (e : Bool) (bs : Bytes) (bks2 : List V) (e' : Bool)
     (h : marshalList Bucket.marshalCopyM bks e = .ok (bs, bks2, e')) :
     ∃ bss, mapM2 Bucket.marshalCopyM bks = .ok (bss, bks2) ∧ bs = bss.flatten ∧ e' = (if bks = [] then e else false) := by
@@ -1222,6 +1268,7 @@ theorem groupMod_len_shape (v : V) (l : UInt16) (v1 : V) (hl : GroupMod.lenM v =
       exact ⟨h, cmd, t, p, g, bks, bks', rfl, rfl, Or.inr ⟨hd, ls, hm, rfl⟩⟩
   · exact absurd hl (by simp)
 
+/-- GroupMod.Len() from its pieces (DELETE / other commands) -/
 theorem groupMod_len_build (h : V) (cmd : Nat) (t p g : V) (bks : List V) :
     (cmd = Gen.openflow13.OFPGC_DELETE →
       GroupMod.lenM (.obj "GroupMod" [h, .num cmd, t, p, g, .list bks]) = .ok (16, .obj "GroupMod" [h, .num cmd, t, p, g, .list bks])) ∧
@@ -1297,26 +1344,37 @@ theorem groupMod_repeatable : ∀ v, Repeatable GroupMod.lenM GroupMod.marshalM 
 
 /-! ### (a) messages and multipart bodies that store nothing -/
 
+/-- PhyPort: neither Len() nor MarshalBinary() modifies the value -/
 theorem phyPort_pure (v : V) : Pure2 PhyPort.lenM PhyPort.marshalM v := ⟨PhyPort.lenM_pure v, PhyPort.marshalM_pure v⟩
+/-- DescStats: neither Len() nor MarshalBinary() modifies the value -/
 theorem descStats_pure (v : V) : Pure2 DescStats.lenM DescStats.marshalM v :=
   ⟨fun _ _ h => (same_ok _ _ _ _ h).2, DescStats.marshalM_pure v⟩
+/-- AggregateStats: neither Len() nor MarshalBinary() modifies the value -/
 theorem aggregateStats_pure (v : V) : Pure2 AggregateStats.lenM AggregateStats.marshalM v :=
   ⟨fun _ _ h => (same_ok _ _ _ _ h).2, AggregateStats.marshalM_pure v⟩
+/-- TableStats: neither Len() nor MarshalBinary() modifies the value -/
 theorem tableStats_pure (v : V) : Pure2 TableStats.lenM TableStats.marshalM v :=
   ⟨fun _ _ h => (same_ok _ _ _ _ h).2, TableStats.marshalM_pure v⟩
+/-- PortStatsRequest: neither Len() nor MarshalBinary() modifies the value -/
 theorem portStatsRequest_pure (v : V) : Pure2 PortStatsRequest.lenM PortStatsRequest.marshalM v :=
   ⟨fun _ _ h => (same_ok _ _ _ _ h).2, PortStatsRequest.marshalM_pure v⟩
+/-- QueueStatsRequest: neither Len() nor MarshalBinary() modifies the value -/
 theorem queueStatsRequest_pure (v : V) : Pure2 QueueStatsRequest.lenM QueueStatsRequest.marshalM v :=
   ⟨fun _ _ h => (same_ok _ _ _ _ h).2, QueueStatsRequest.marshalM_pure v⟩
+/-- QueueStats: neither Len() nor MarshalBinary() modifies the value -/
 theorem queueStats_pure (v : V) : Pure2 QueueStats.lenM QueueStats.marshalM v :=
   ⟨fun _ _ h => (same_ok _ _ _ _ h).2, QueueStats.marshalM_pure v⟩
+/-- ControllerID: neither Len() nor MarshalBinary() modifies the value -/
 theorem controllerID_pure (v : V) : Pure2 ControllerID.lenM ControllerID.marshalM v :=
   ⟨fun _ _ h => (same_ok _ _ _ _ h).2, ControllerID.marshalM_pure v⟩
+/-- TLVTableMap: neither Len() nor MarshalBinary() modifies the value -/
 theorem tlvTableMap_pure (v : V) : Pure2 TLVTableMap.lenM TLVTableMap.marshalM v :=
   ⟨fun _ _ h => (same_ok _ _ _ _ h).2, TLVTableMap.marshalM_pure v⟩
+/-- BundleControl: neither Len() nor MarshalBinary() modifies the value -/
 theorem bundleControl_pure (v : V) : Pure2 BundleControl.lenM BundleControl.marshalM v :=
   ⟨fun _ _ h => (same_ok _ _ _ _ h).2, BundleControl.marshalM_pure v⟩
 
+/-- PortStats: neither Len() nor MarshalBinary() modifies the value -/
 theorem portStats_pure (v : V) : Pure2 PortStats.lenM PortStats.marshalM v := by
   refine ⟨fun _ _ h => (same_ok _ _ _ _ h).2, ?_⟩
   intro bs v2 h
@@ -1328,6 +1386,7 @@ theorem portStats_pure (v : V) : Pure2 PortStats.lenM PortStats.marshalM v := by
       exact (same_ok _ _ _ _ h').2
   · exact absurd h (by simp)
 
+/-- util.Buffer: neither Len() nor MarshalBinary() modifies the value -/
 theorem uBuffer_pure (v : V) : Pure2 UBuffer.lenM UBuffer.marshalM v := by
   refine ⟨?_, UBuffer.marshalM_pure v⟩
   intro l v1 h
